@@ -141,7 +141,7 @@ def _fit_case(spec, ctx):
     finally:
         cb.select_copula = real
     if poison is None:
-        if isinstance(model, ValueError):
+        if vines.is_refusal(model):
             ctx.note('fit refused with ValueError')
             return
         ctx.violation('vine.fit', 'C17:fit-' + exc_mech(model), dict(exc_detail(model), **where))
@@ -319,7 +319,7 @@ def _sample_schema(spec, ctx):
     where = {'vine_type': spec['vine_type'], 'd': d, 'truncated': spec['truncated']}
     model, poison = vines.fit(ctx, spec['vine_type'], df, spec['truncated'], 'pos', random_state=int(rng.integers(1 << 30)))
     if poison is None:
-        if isinstance(model, ValueError):
+        if vines.is_refusal(model):
             return
         ctx.violation('sample.fit', 'C17:fit-' + exc_mech(model), dict(exc_detail(model), **where))
         return
